@@ -633,14 +633,20 @@ func singleTrunDoff(moof []byte) (int, bool) {
 	return 0, false
 }
 
-// emitReencode: R <id> <flags> <boxes> <per box: - | doffpos-or-minus:hex of the moof> <obs>
+// emitReencode: R <id> <flags> <boxes> <per box: - | doffpos-or-minus:hex of the box> <obs>
 // obs: err | panic | ok:<per written box: class of the identical input box | X:hex>
 func emitReencode(id string, l *layout) {
 	data := l.bytes()
 	var mi []string
 	for _, e := range l.els {
 		if e.kind != 'o' {
-			mi = append(mi, "-")
+			// every other box with its bytes too (the model re-encodes it through C01's box model); virtual or
+			// large boxes stay opaque
+			if e.vsize > 0 || len(e.data) > 4096 {
+				mi = append(mi, "-")
+			} else {
+				mi = append(mi, "-:"+hx.Hex(e.data))
+			}
 			continue
 		}
 		p := "-"
